@@ -3,7 +3,7 @@
 //   Sc Sp Sd Sf Ss : setSurplusRefinement(tol, classic|parents|direction|fds|stable, output, limits)   (local polynomial / wavelet)
 //   Sv             : classic through the container overload with a symbolic scale correction of the documented size
 //   Sg             : setSurplusRefinement(tol, output)  (sequence / global with sequence rule)      A : setAnisotropicRefinement
-//   L : loadNeededValues (needed points; when none are needed an overwriting reload with fresh values)  M : mergeRefinement  C : clearRefinement  U : updateGrid(depth+1)
+//   L : loadNeededValues (needed points; when none are needed an overwriting reload with fresh values)  M : mergeRefinement  C : clearRefinement  U : updateGrid(depth+1)  Ud : updateGrid(same depth: nothing new is selected)
 #include "tgrid.hpp"
 #include <sstream>
 
@@ -43,6 +43,12 @@ int main(int argc, char **argv){
       fpsym_check(kept, (tag + "a load never removes a loaded point").c_str());
       fpsym_check(added, (tag + "every needed point becomes loaded").c_str());
       fpsym_check(after.loaded.size() == before.loaded.size() + (before.needed.empty() ? 0 : before.needed.size()), (tag + "loading makes exactly the needed points loaded").c_str());
+      // attachment as seen through the surrogate: it reproduces the supplied value at the coordinates it was supplied for
+      if (outs > 0 && (!grid.isLocalPolynomial() || lpParentComplete(grid))){
+        int nl = (int) after.loaded.size(); std::set<int> pick = {0, nl / 2, nl - 1};
+        for (int i : pick){ std::vector<double> y; grid.evaluate(after.loaded[i], y); const std::vector<double> &want = model.at(after.loaded[i]);
+          for (int k=0;k<outs;k++) fpsym_eq(y[k], want[k], 50.0 * (2.0 + nl), (tag + "after a load the surrogate reproduces the supplied value at its coordinates").c_str()); }
+      }
     } else {
       double tol = fpsym_symbolic(0.02 + 0.05 * (step_no % 3), 5 + step_no, 0.0, 0.5);
       bool is_refine = true;
@@ -78,6 +84,7 @@ int main(int argc, char **argv){
         }
       } else if (op == "Sg"){ grid.setSurplusRefinement(tol, output < 0 ? 0 : output, g.ll);
       } else if (op == "A"){ grid.setAnisotropicRefinement(type_iptotal, 2, output < 0 ? 0 : output, g.ll);
+      } else if (op == "Ud"){ if (g.family == "localp" || g.family == "wavelet"){ fpsym_finish(); return 0; } grid.updateGrid(g.depth, IO::getDepthTypeString(g.type), g.aw, g.ll);
       } else if (op == "U"){ if (g.family == "localp" || g.family == "wavelet"){ fpsym_finish(); return 0; } grid.updateGrid(g.depth + 1, IO::getDepthTypeString(g.type), g.aw, g.ll);
       } else if (op == "C"){ grid.clearRefinement();
       } else if (op == "M"){ bool had_needed = grid.getNumNeeded() > 0; grid.mergeRefinement(); if (had_needed) zeroed = true; is_refine = !had_needed;   // without needed points the merge is a no-op
